@@ -7,7 +7,8 @@ let pair sep f g s = match String.split_on_char sep s with
   | [a; b] -> (f a, g b) | _ -> failwith ("pair: " ^ s)
 
 let parse_tx s = match String.split_on_char '/' s with
-  | [h; r; e] -> { t_hash = hx h; t_reverted = (r = "1"); t_events = n_of_int (int_of_string e) }
+  | [h; r; e; p; rp] -> { t_hash = hx h; t_reverted = (r = "1"); t_events = n_of_int (int_of_string e);
+                          t_pay = hx p; t_rpay = hx rp }
   | _ -> failwith ("tx: " ^ s)
 
 (* sto: contracts separated by '|', each  addr:k=v,k=v *)
@@ -15,9 +16,14 @@ let parse_sto s =
   if s = "-" then [] else
   List.map (fun c -> pair ':' hx (fun kvs -> List.map (pair '=' hx hx) (items kvs)) c) (String.split_on_char '|' s)
 
-let parse_diff dep rep non sto decl =
+let triple s = match String.split_on_char '>' s with
+  | [a; b; c] -> (hx a, (hx b, hx c)) | _ -> failwith ("triple: " ^ s)
+
+(* decl0: hash>definition ; decl1: hash>compiled>definition *)
+let parse_diff dep rep non sto decl0 decl1 =
   { d_deploy = List.map (pair '>' hx hx) (items dep); d_replace = List.map (pair '>' hx hx) (items rep);
-    d_nonces = List.map (pair '>' hx hx) (items non); d_storage = parse_sto sto; d_declare = List.map hx (items decl) }
+    d_nonces = List.map (pair '>' hx hx) (items non); d_storage = parse_sto sto;
+    d_declare0 = List.map (pair '>' hx hx) (items decl0); d_declare1 = List.map triple (items decl1) }
 
 let parse_id s =
   if s = "latest" then Latest else if s = "l1" then L1Accepted
@@ -32,6 +38,7 @@ let parse_req (ws : string list) : req = match ws with
   | ["txByIdx"; id; i] -> RTxByIdx (parse_id id, z_of_int (int_of_string i))
   | ["stateUpdate"; id] -> RStateUpdate (parse_id id)
   | ["storageAt"; id; a; k] -> RStorageAt (parse_id id, hx a, hx k)
+  | ["storageAtLU"; id; a; k] -> RStorageAtLU (parse_id id, hx a, hx k)
   | ["nonce"; id; a] -> RNonce (parse_id id, hx a) | ["classHashAt"; id; a] -> RClassHashAt (parse_id id, hx a)
   | ["classAt"; id; a] -> RClassAt (parse_id id, hx a) | ["class"; id; c] -> RClass (parse_id id, hx c)
   | _ -> failwith ("req: " ^ String.concat " " ws)
@@ -50,31 +57,41 @@ let show_diff (d : diff) : string =
   let pairs l = sorted (List.map (fun (a, c) -> (hn a, hn a ^ ">" ^ hn c)) l) in
   let sto = sorted (List.map (fun (a, kvs) ->
     (hn a, hn a ^ "[" ^ String.concat "," (sorted (List.map (fun (k, v) -> (hn k, hn k ^ "=" ^ hn v)) kvs)) ^ "]")) d.d_storage) in
-  let decl = sorted (List.map (fun c -> (hn c, hn c)) d.d_declare) in
-  Printf.sprintf "dep=%s;rep=%s;non=%s;sto=%s;decl=%s" (join_or (pairs d.d_deploy)) (join_or (pairs d.d_replace))
-    (join_or (pairs d.d_nonces)) (join_or sto) (join_or decl)
+  let decl = sorted (List.map (fun (c, _) -> (hn c, hn c)) d.d_declare0) in
+  let decl1 = sorted (List.map (fun (c, (cc, _)) -> (hn c, hn c ^ ">" ^ hn cc)) d.d_declare1) in
+  Printf.sprintf "dep=%s;rep=%s;non=%s;sto=%s;decl=%s;decl1=%s" (join_or (pairs d.d_deploy)) (join_or (pairs d.d_replace))
+    (join_or (pairs d.d_nonces)) (join_or sto) (join_or decl) (join_or decl1)
 
 let show_err = function
   | BlockNotFound -> "BLOCK_NOT_FOUND" | TxnHashNotFound -> "TXN_HASH_NOT_FOUND" | ContractNotFound -> "CONTRACT_NOT_FOUND"
   | InvalidTxnIndex -> "INVALID_TXN_INDEX" | ClassHashNotFound -> "CLASS_HASH_NOT_FOUND" | NoBlocks -> "NO_BLOCKS"
   | InvalidParams -> "INVALID_PARAMS" | Internal -> "INTERNAL"
 
+let show_hdr (h : hdr) : string =
+  Printf.sprintf "%s:%s:%s:%s:%s" (dn h.hd_number) (hn h.hd_hash) (hn h.hd_parent) (st h.hd_status) (hn h.hd_pay)
+
 let show (a : answer) : string = match a with
   | AErr e -> "err:" ^ show_err e
   | ANum n -> "num:" ^ dn n
   | AHashNum (h, n) -> "hn:" ^ hn h ^ ":" ^ dn n
-  | ABlock (n, h, p, s, txs) -> Printf.sprintf "blk:%s:%s:%s:%s:%s" (dn n) (hn h) (hn p) (st s) (join_or (List.map hn txs))
-  | ABlockR (n, h, p, s, rcs) ->
-      Printf.sprintf "blkr:%s:%s:%s:%s:%s" (dn n) (hn h) (hn p) (st s)
-        (join_or (List.map (fun (((th, fs), r), e) -> Printf.sprintf "%s/%s/%s/%s" (hn th) (st fs) (ex r) (dn e)) rcs))
-  | ATx (h, i) -> "tx:" ^ hn h ^ ":" ^ hn i
-  | AReceipt (h, bn, bh, s, r, e) -> Printf.sprintf "rc:%s:%s:%s:%s:%s:%s" (hn h) (dn bn) (hn bh) (st s) (ex r) (dn e)
+  | ABlock (hd, txs) -> Printf.sprintf "blk:%s:%s" (show_hdr hd) (join_or (List.map hn txs))
+  | ABlockT (hd, txs) ->
+      Printf.sprintf "blkt:%s:%s" (show_hdr hd) (join_or (List.map (fun (th, p) -> hn th ^ "/" ^ hn p) txs))
+  | ABlockR (hd, rcs) ->
+      Printf.sprintf "blkr:%s:%s" (show_hdr hd)
+        (join_or (List.map (fun r -> Printf.sprintf "%s/%s/%s/%s/%s/%s" (hn r.rv_hash) (st r.rv_status) (ex r.rv_reverted)
+                                       (dn r.rv_events) (hn r.rv_tpay) (hn r.rv_rpay)) rcs))
+  | ATx (h, p) -> "tx:" ^ hn h ^ ":" ^ hn p
+  | AReceipt (h, bn, bh, s, r, e, rp) ->
+      Printf.sprintf "rc:%s:%s:%s:%s:%s:%s:%s" (hn h) (dn bn) (hn bh) (st s) (ex r) (dn e) (hn rp)
   | ATxStatus (s, r) -> "st:" ^ st s ^ ":" ^ ex r
   | AStateUpdate (bh, d) -> "su:" ^ hn bh ^ ":" ^ show_diff d
   | AFelt v -> "felt:" ^ hn v
+  | AFeltAt (v, n) -> "feltat:" ^ hn v ^ ":" ^ dn n
   | AClass c -> "class:" ^ hn c
 
 let show_dev = function DevNone -> "none" | DevTxIdxAbsentNumber -> "txidx-absent-block-number" | DevStateZeroHash -> "state-by-zero-block-hash"
+  | DevOrphanClass -> "orphan-class"
 
 let w = ref w_init
 let d = ref db_init
@@ -87,8 +104,9 @@ let () =
   read_lines (fun line ->
     (match words line with
      | ["reset"] -> w := w_init; d := db_init; print_endline "ok 1"
-     | ["store"; h; txs; dep; rep; non; sto; decl] ->
-         apply (OStore (hx h, List.map parse_tx (items txs), parse_diff dep rep non sto decl))
+     | ["store"; h; hp; txs; dep; rep; non; sto; decl0; decl1; extra] ->
+         apply (OStore (hx h, hx hp, List.map parse_tx (items txs), parse_diff dep rep non sto decl0 decl1,
+                        List.map (pair '>' hx hx) (items extra)))
      | ["revert"] -> apply ORevert
      | ["l1"; n] -> apply (OSetL1 (hx n))
      | "q" :: be :: rq ->
@@ -96,6 +114,7 @@ let () =
          let r = parse_req rq in
          print_endline ("spec " ^ show (spec_answer !w r));
          print_endline ("exp8 " ^ show (expected V8 !w r));
+         print_endline ("exp9 " ^ show (expected V9 !w r));
          print_endline ("m8 " ^ show (handle V8 be !d r));
          print_endline ("m9 " ^ show (handle V9 be !d r));
          print_endline ("m10 " ^ show (handle V10 be !d r));
